@@ -22,7 +22,7 @@ const STEP_BOUND: u64 = 400_000;
 const STOPS: [&str; 3] = ["shutdown", "lasthandle", "broker"];
 const THEN: [&str; 3] = ["dropreply", "nothing", "dropcallee"];
 
-fn scenario(seed: u64, stop: &str, rounds: u64, then: &str, fifo: Option<usize>) -> Vec<J> {
+fn scenario(seed: u64, stop: &str, rounds: u64, then: &str, fifo: Option<usize>, burst: u32) -> Vec<J> {
     let mut rng = Rng::new(seed);
     let mut bus = Bus::new();
     for _ in 0..2 {
@@ -39,11 +39,21 @@ fn scenario(seed: u64, stop: &str, rounds: u64, then: &str, fifo: Option<usize>)
         let object = callee.create_object(obj_uuid(950)).await.expect("object");
         let mut service = object.create_service(svc_uuid(950), ServiceInfo::new(1)).await.expect("service");
         let proxy = Proxy::new(&caller, service.id()).await.expect("proxy");
+        if burst > 0 {
+            // a backlog of events on their way to the client that is about to stop
+            let _ = proxy.subscribe(0).await;
+            let _ = callee.sync_broker().await;
+            for k in 0..burst {
+                let _ = service.emit(0, k);
+            }
+        }
         let reply = proxy.call(0, 7u32, None);
-        let _ = caller.sync_broker().await;
-        let _ = callee.sync_broker().await;
+        if burst == 0 {
+            let _ = caller.sync_broker().await;
+            let _ = callee.sync_broker().await;
+        }
         // the callee takes the call and keeps it unanswered
-        let held = service.next_call().await;
+        let held = if burst == 0 { service.next_call().await } else { None };
         let id = log.start("c1.script", "stop", json!({"how": stop_s}));
         let mut caller = Some(caller);
         let mut proxy = Some(proxy);
@@ -147,10 +157,25 @@ fn main() {
                 // the scenario is announced before it runs: if it hangs, the log says which one
                 lines.lock().unwrap().push(json!({"t": "reset", "run": n, "scenario": {"stop": stop, "then": then, "rounds": rounds, "fifo": fifo.unwrap_or(0)}}));
                 lines.lock().unwrap().push(json!({"t": "cause", "cl": 1, "cause": stop, "k": rounds}));
-                let l = scenario(rng.next_u64(), stop, rounds, then, fifo);
+                let l = scenario(rng.next_u64(), stop, rounds, then, fifo, 0);
                 lines.lock().unwrap().extend(l);
                 n += 1;
                 progress.store(n, Ordering::SeqCst);
+            }
+        }
+    }
+    // a client stops while events are queued for it on a bounded transport
+    for stop in ["shutdown", "lasthandle"] {
+        for burst in [6u32, 40] {
+            for fifo in [Some(1usize), Some(4), Some(16)] {
+                for rounds in 0..=depth {
+                    lines.lock().unwrap().push(json!({"t": "reset", "run": n, "scenario": {"stop": stop, "then": "nothing", "rounds": rounds, "fifo": fifo.unwrap_or(0), "burst": burst}}));
+                    lines.lock().unwrap().push(json!({"t": "cause", "cl": 1, "cause": stop, "k": rounds}));
+                    let l = scenario(rng.next_u64(), stop, rounds, "nothing", fifo, burst);
+                    lines.lock().unwrap().extend(l);
+                    n += 1;
+                    progress.store(n, Ordering::SeqCst);
+                }
             }
         }
     }
